@@ -113,9 +113,8 @@ func StringsReplaceAll(s, old, new string) string {
 func StringsToLower(s string) string {
 	b := []byte(s)
 	for i := range b {
-		if b[i] >= 'A' && b[i] <= 'Z' {
-			b[i] += 'a' - 'A'
-		}
+		// branch-free (no fork on symbolic bytes): add 0x20 iff 'A' <= b[i] <= 'Z'
+		b[i] += byte((int(b[i]-'A')-26)>>8) & 0x20
 	}
 	return string(b)
 }
